@@ -461,21 +461,20 @@ func (m *memory) Objects(ctx context.Context, s *node.Node, p *predicate.Predica
 	selectedTrpls := applyGlobalTimeBounds(m.idxSP[spIdx], ckr)
 
 	var err error
+	// The options belong to the caller (and may be shared by concurrent lookups):
+	// the filter LatestAnchor stands for is kept in a local variable.
+	fo := lo.FilterOptions
 	if lo.LatestAnchor {
-		if lo.FilterOptions != nil {
+		if fo != nil {
 			return fmt.Errorf("cannot have LatestAnchor and FilterOptions used at the same time inside lookup options")
 		}
-		lo.FilterOptions = &filter.StorageOptions{
+		fo = &filter.StorageOptions{
 			Operation: filter.Latest,
 			Field:     filter.PredicateField,
 		}
-		// To guarantee that "lo.FilterOptions" will be cleaned at the driver level, since it was artificially created at the driver level for "LatestAnchor".
-		defer func() {
-			lo.FilterOptions = (*filter.StorageOptions)(nil)
-		}()
 	}
-	if lo.FilterOptions != nil {
-		selectedTrpls, err = executeFilter(selectedTrpls, p, lo.FilterOptions)
+	if fo != nil {
+		selectedTrpls, err = executeFilter(selectedTrpls, p, fo)
 		if err != nil {
 			return err
 		}
@@ -514,21 +513,20 @@ func (m *memory) Subjects(ctx context.Context, p *predicate.Predicate, o *triple
 	selectedTrpls := applyGlobalTimeBounds(m.idxPO[poIdx], ckr)
 
 	var err error
+	// The options belong to the caller (and may be shared by concurrent lookups):
+	// the filter LatestAnchor stands for is kept in a local variable.
+	fo := lo.FilterOptions
 	if lo.LatestAnchor {
-		if lo.FilterOptions != nil {
+		if fo != nil {
 			return fmt.Errorf("cannot have LatestAnchor and FilterOptions used at the same time inside lookup options")
 		}
-		lo.FilterOptions = &filter.StorageOptions{
+		fo = &filter.StorageOptions{
 			Operation: filter.Latest,
 			Field:     filter.PredicateField,
 		}
-		// To guarantee that "lo.FilterOptions" will be cleaned at the driver level, since it was artificially created at the driver level for "LatestAnchor".
-		defer func() {
-			lo.FilterOptions = (*filter.StorageOptions)(nil)
-		}()
 	}
-	if lo.FilterOptions != nil {
-		selectedTrpls, err = executeFilter(selectedTrpls, p, lo.FilterOptions)
+	if fo != nil {
+		selectedTrpls, err = executeFilter(selectedTrpls, p, fo)
 		if err != nil {
 			return err
 		}
@@ -569,21 +567,20 @@ func (m *memory) PredicatesForSubjectAndObject(ctx context.Context, s *node.Node
 	selectedTrpls := applyGlobalTimeBounds(m.idxSO[soIdx], ckr)
 
 	var err error
+	// The options belong to the caller (and may be shared by concurrent lookups):
+	// the filter LatestAnchor stands for is kept in a local variable.
+	fo := lo.FilterOptions
 	if lo.LatestAnchor {
-		if lo.FilterOptions != nil {
+		if fo != nil {
 			return fmt.Errorf("cannot have LatestAnchor and FilterOptions used at the same time inside lookup options")
 		}
-		lo.FilterOptions = &filter.StorageOptions{
+		fo = &filter.StorageOptions{
 			Operation: filter.Latest,
 			Field:     filter.PredicateField,
 		}
-		// To guarantee that "lo.FilterOptions" will be cleaned at the driver level, since it was artificially created at the driver level for "LatestAnchor".
-		defer func() {
-			lo.FilterOptions = (*filter.StorageOptions)(nil)
-		}()
 	}
-	if lo.FilterOptions != nil {
-		selectedTrpls, err = executeFilter(selectedTrpls, nil, lo.FilterOptions)
+	if fo != nil {
+		selectedTrpls, err = executeFilter(selectedTrpls, nil, fo)
 		if err != nil {
 			return err
 		}
@@ -622,21 +619,20 @@ func (m *memory) PredicatesForSubject(ctx context.Context, s *node.Node, lo *sto
 	selectedTrpls := applyGlobalTimeBounds(m.idxS[sUUID], ckr)
 
 	var err error
+	// The options belong to the caller (and may be shared by concurrent lookups):
+	// the filter LatestAnchor stands for is kept in a local variable.
+	fo := lo.FilterOptions
 	if lo.LatestAnchor {
-		if lo.FilterOptions != nil {
+		if fo != nil {
 			return fmt.Errorf("cannot have LatestAnchor and FilterOptions used at the same time inside lookup options")
 		}
-		lo.FilterOptions = &filter.StorageOptions{
+		fo = &filter.StorageOptions{
 			Operation: filter.Latest,
 			Field:     filter.PredicateField,
 		}
-		// To guarantee that "lo.FilterOptions" will be cleaned at the driver level, since it was artificially created at the driver level for "LatestAnchor".
-		defer func() {
-			lo.FilterOptions = (*filter.StorageOptions)(nil)
-		}()
 	}
-	if lo.FilterOptions != nil {
-		selectedTrpls, err = executeFilter(selectedTrpls, nil, lo.FilterOptions)
+	if fo != nil {
+		selectedTrpls, err = executeFilter(selectedTrpls, nil, fo)
 		if err != nil {
 			return err
 		}
@@ -675,21 +671,20 @@ func (m *memory) PredicatesForObject(ctx context.Context, o *triple.Object, lo *
 	selectedTrpls := applyGlobalTimeBounds(m.idxO[oUUID], ckr)
 
 	var err error
+	// The options belong to the caller (and may be shared by concurrent lookups):
+	// the filter LatestAnchor stands for is kept in a local variable.
+	fo := lo.FilterOptions
 	if lo.LatestAnchor {
-		if lo.FilterOptions != nil {
+		if fo != nil {
 			return fmt.Errorf("cannot have LatestAnchor and FilterOptions used at the same time inside lookup options")
 		}
-		lo.FilterOptions = &filter.StorageOptions{
+		fo = &filter.StorageOptions{
 			Operation: filter.Latest,
 			Field:     filter.PredicateField,
 		}
-		// To guarantee that "lo.FilterOptions" will be cleaned at the driver level, since it was artificially created at the driver level for "LatestAnchor".
-		defer func() {
-			lo.FilterOptions = (*filter.StorageOptions)(nil)
-		}()
 	}
-	if lo.FilterOptions != nil {
-		selectedTrpls, err = executeFilter(selectedTrpls, nil, lo.FilterOptions)
+	if fo != nil {
+		selectedTrpls, err = executeFilter(selectedTrpls, nil, fo)
 		if err != nil {
 			return err
 		}
@@ -728,21 +723,20 @@ func (m *memory) TriplesForSubject(ctx context.Context, s *node.Node, lo *storag
 	selectedTrpls := applyGlobalTimeBounds(m.idxS[sUUID], ckr)
 
 	var err error
+	// The options belong to the caller (and may be shared by concurrent lookups):
+	// the filter LatestAnchor stands for is kept in a local variable.
+	fo := lo.FilterOptions
 	if lo.LatestAnchor {
-		if lo.FilterOptions != nil {
+		if fo != nil {
 			return fmt.Errorf("cannot have LatestAnchor and FilterOptions used at the same time inside lookup options")
 		}
-		lo.FilterOptions = &filter.StorageOptions{
+		fo = &filter.StorageOptions{
 			Operation: filter.Latest,
 			Field:     filter.PredicateField,
 		}
-		// To guarantee that "lo.FilterOptions" will be cleaned at the driver level, since it was artificially created at the driver level for "LatestAnchor".
-		defer func() {
-			lo.FilterOptions = (*filter.StorageOptions)(nil)
-		}()
 	}
-	if lo.FilterOptions != nil {
-		selectedTrpls, err = executeFilter(selectedTrpls, nil, lo.FilterOptions)
+	if fo != nil {
+		selectedTrpls, err = executeFilter(selectedTrpls, nil, fo)
 		if err != nil {
 			return err
 		}
@@ -781,21 +775,20 @@ func (m *memory) TriplesForPredicate(ctx context.Context, p *predicate.Predicate
 	selectedTrpls := applyGlobalTimeBounds(m.idxP[pUUID], ckr)
 
 	var err error
+	// The options belong to the caller (and may be shared by concurrent lookups):
+	// the filter LatestAnchor stands for is kept in a local variable.
+	fo := lo.FilterOptions
 	if lo.LatestAnchor {
-		if lo.FilterOptions != nil {
+		if fo != nil {
 			return fmt.Errorf("cannot have LatestAnchor and FilterOptions used at the same time inside lookup options")
 		}
-		lo.FilterOptions = &filter.StorageOptions{
+		fo = &filter.StorageOptions{
 			Operation: filter.Latest,
 			Field:     filter.PredicateField,
 		}
-		// To guarantee that "lo.FilterOptions" will be cleaned at the driver level, since it was artificially created at the driver level for "LatestAnchor".
-		defer func() {
-			lo.FilterOptions = (*filter.StorageOptions)(nil)
-		}()
 	}
-	if lo.FilterOptions != nil {
-		selectedTrpls, err = executeFilter(selectedTrpls, p, lo.FilterOptions)
+	if fo != nil {
+		selectedTrpls, err = executeFilter(selectedTrpls, p, fo)
 		if err != nil {
 			return err
 		}
@@ -834,21 +827,20 @@ func (m *memory) TriplesForObject(ctx context.Context, o *triple.Object, lo *sto
 	selectedTrpls := applyGlobalTimeBounds(m.idxO[oUUID], ckr)
 
 	var err error
+	// The options belong to the caller (and may be shared by concurrent lookups):
+	// the filter LatestAnchor stands for is kept in a local variable.
+	fo := lo.FilterOptions
 	if lo.LatestAnchor {
-		if lo.FilterOptions != nil {
+		if fo != nil {
 			return fmt.Errorf("cannot have LatestAnchor and FilterOptions used at the same time inside lookup options")
 		}
-		lo.FilterOptions = &filter.StorageOptions{
+		fo = &filter.StorageOptions{
 			Operation: filter.Latest,
 			Field:     filter.PredicateField,
 		}
-		// To guarantee that "lo.FilterOptions" will be cleaned at the driver level, since it was artificially created at the driver level for "LatestAnchor".
-		defer func() {
-			lo.FilterOptions = (*filter.StorageOptions)(nil)
-		}()
 	}
-	if lo.FilterOptions != nil {
-		selectedTrpls, err = executeFilter(selectedTrpls, nil, lo.FilterOptions)
+	if fo != nil {
+		selectedTrpls, err = executeFilter(selectedTrpls, nil, fo)
 		if err != nil {
 			return err
 		}
@@ -889,21 +881,20 @@ func (m *memory) TriplesForSubjectAndPredicate(ctx context.Context, s *node.Node
 	selectedTrpls := applyGlobalTimeBounds(m.idxSP[spIdx], ckr)
 
 	var err error
+	// The options belong to the caller (and may be shared by concurrent lookups):
+	// the filter LatestAnchor stands for is kept in a local variable.
+	fo := lo.FilterOptions
 	if lo.LatestAnchor {
-		if lo.FilterOptions != nil {
+		if fo != nil {
 			return fmt.Errorf("cannot have LatestAnchor and FilterOptions used at the same time inside lookup options")
 		}
-		lo.FilterOptions = &filter.StorageOptions{
+		fo = &filter.StorageOptions{
 			Operation: filter.Latest,
 			Field:     filter.PredicateField,
 		}
-		// To guarantee that "lo.FilterOptions" will be cleaned at the driver level, since it was artificially created at the driver level for "LatestAnchor".
-		defer func() {
-			lo.FilterOptions = (*filter.StorageOptions)(nil)
-		}()
 	}
-	if lo.FilterOptions != nil {
-		selectedTrpls, err = executeFilter(selectedTrpls, p, lo.FilterOptions)
+	if fo != nil {
+		selectedTrpls, err = executeFilter(selectedTrpls, p, fo)
 		if err != nil {
 			return err
 		}
@@ -944,21 +935,20 @@ func (m *memory) TriplesForPredicateAndObject(ctx context.Context, p *predicate.
 	selectedTrpls := applyGlobalTimeBounds(m.idxPO[poIdx], ckr)
 
 	var err error
+	// The options belong to the caller (and may be shared by concurrent lookups):
+	// the filter LatestAnchor stands for is kept in a local variable.
+	fo := lo.FilterOptions
 	if lo.LatestAnchor {
-		if lo.FilterOptions != nil {
+		if fo != nil {
 			return fmt.Errorf("cannot have LatestAnchor and FilterOptions used at the same time inside lookup options")
 		}
-		lo.FilterOptions = &filter.StorageOptions{
+		fo = &filter.StorageOptions{
 			Operation: filter.Latest,
 			Field:     filter.PredicateField,
 		}
-		// To guarantee that "lo.FilterOptions" will be cleaned at the driver level, since it was artificially created at the driver level for "LatestAnchor".
-		defer func() {
-			lo.FilterOptions = (*filter.StorageOptions)(nil)
-		}()
 	}
-	if lo.FilterOptions != nil {
-		selectedTrpls, err = executeFilter(selectedTrpls, p, lo.FilterOptions)
+	if fo != nil {
+		selectedTrpls, err = executeFilter(selectedTrpls, p, fo)
 		if err != nil {
 			return err
 		}
@@ -1005,21 +995,20 @@ func (m *memory) Triples(ctx context.Context, lo *storage.LookupOptions, trpls c
 	selectedTrpls := applyGlobalTimeBounds(m.idx, ckr)
 
 	var err error
+	// The options belong to the caller (and may be shared by concurrent lookups):
+	// the filter LatestAnchor stands for is kept in a local variable.
+	fo := lo.FilterOptions
 	if lo.LatestAnchor {
-		if lo.FilterOptions != nil {
+		if fo != nil {
 			return fmt.Errorf("cannot have LatestAnchor and FilterOptions used at the same time inside lookup options")
 		}
-		lo.FilterOptions = &filter.StorageOptions{
+		fo = &filter.StorageOptions{
 			Operation: filter.Latest,
 			Field:     filter.PredicateField,
 		}
-		// To guarantee that "lo.FilterOptions" will be cleaned at the driver level, since it was artificially created at the driver level for "LatestAnchor".
-		defer func() {
-			lo.FilterOptions = (*filter.StorageOptions)(nil)
-		}()
 	}
-	if lo.FilterOptions != nil {
-		selectedTrpls, err = executeFilter(selectedTrpls, nil, lo.FilterOptions)
+	if fo != nil {
+		selectedTrpls, err = executeFilter(selectedTrpls, nil, fo)
 		if err != nil {
 			return err
 		}
